@@ -59,7 +59,7 @@ def root_param(o):
     return None
 
 
-def message_shape_violations(ctx, cfg="dev", only_codes=None):
+def message_shape_violations(ctx, cfg="dev", only_codes=None, within_prefix=None, counter=None):
     """Error messages whose template does not start with an upper-hex offset `{pos:#X}: ` (what
     ErrorStats::sort_error_msgs_by_mem_pos parses with ^0x[0-9A-F]+): list of (where, template)"""
     f = ctx.facts(cfg)
@@ -75,6 +75,10 @@ def message_shape_violations(ctx, cfg="dev", only_codes=None):
         tm = (fs or {}).get("template") or ""
         if only_codes and not any(c in tm for c in only_codes):
             continue
+        if within_prefix and not (s.get("fn") or "").replace("<", "").startswith(within_prefix):
+            continue
+        if counter is not None:
+            counter.append(where(s["sp"]))
         if not (fs and re.match(r"\{(\w*):#X\}: ", tm) and fs["args"] and fs["args"][0][0] == "upper_hex"):
             out.append((where(s["sp"]), tm[:70]))
     return out
